@@ -49,6 +49,21 @@ def sig_of(case, prog, clause, pos):
     return sig
 
 
+FAULT_OPS = ("Obstruct", "Damage", "Restore")
+
+
+def must_ops(prog):
+    """Commands that must succeed in this program when the design accepts them: named by the check
+    (prog["mustops"]), and only in fault-free programs (no obstructed path, no damaged source)."""
+    ops = prog.get("mustops") or []
+    if not ops:
+        return []
+    for c in prog["cmds"]:
+        if c["op"] in FAULT_OPS or c.get("m") == "srcfault":
+            return []
+    return list(ops)
+
+
 def run_and_judge(ctx, progs, workers=12, chunk=150, label=""):
     """Run the programs, judge them with Trace_Pipeline.  Returns the list of
     (prog, case, verdict).  Violations and drift are registered on ctx."""
@@ -58,6 +73,7 @@ def run_and_judge(ctx, progs, workers=12, chunk=150, label=""):
     for k, c in enumerate(cases):
         t = pd.strip_case(c)
         t["tid"] = k + 1
+        t["mustops"] = must_ops(progs[k])
         tcases.append(t)
     verdicts = ctx.judge(TRACE, tcases, workers=8, chunk=chunk)
     out = []
@@ -94,6 +110,7 @@ def replay_prog(ctx, path):
         case = pd.run_program(work, prog, "replay")
     t = pd.strip_case(case)
     t["tid"] = 1
+    t["mustops"] = must_ops(prog)
     v = ctx.judge(TRACE, [t])
     for ev, lg in zip(case["events"], case.get("_log", [])):
         print("  %-9s exit=%d  %s" % (ev["cmd"]["op"], ev["exit"], " ".join(lg["argv"])))
